@@ -232,6 +232,17 @@ func (cs *ContractSet) LoadLines(path string, lines []string, lineNos []int, pkg
 			if cur == nil && curLemma == nil {
 				fileLets[strings.TrimSpace(name)] = pe
 			}
+		case kw == "filelet": // filelet name = expr : abbreviation for every following contract of this file
+			name, ex, ok := strings.Cut(rest, "=")
+			if !ok {
+				return fail(fmt.Errorf("filelet name = expr"))
+			}
+			pe, err := parse(strings.TrimSpace(ex))
+			if err != nil {
+				return fail(err)
+			}
+			fileLets[strings.TrimSpace(name)] = pe
+			lets[strings.TrimSpace(name)] = pe
 		case kw == "props":
 			if curLemma != nil {
 				curLemma.Props = append(curLemma.Props, splitNames(rest)...)
